@@ -228,6 +228,21 @@ def replay_names(chk, cases, tmpdir):
                     chk.violation("C18.NameNotResolved", key, {**det, "slot": slot, "got": safe(got)})
             elif not unchanged():
                 chk.violation("C18.UnknownNameChangedSettings", key, {**det, "slot": slot, "got": safe(got)})
+            else:
+                # the unknown name among VALID entries of the same call (before and after it): it leaves only its own setting
+                # unchanged - the valid ones are taken
+                others = {"velocity": ("mps", m.Unit.MPS), "temperature": ("Celsius", m.Unit.Celsius), "weight": ("gram", m.Unit.Gram)}
+                others.pop(slot, None)
+                names_ = list(others)
+                call = {names_[0]: others[names_[0]][0], slot: s, names_[1]: others[names_[1]][0]}
+                impl.outcome(lambda: m.PreferredUnits.set(**call))
+                chk.stratum("names_unknown_among_valid_entries")
+                for nm_ in names_[:2]:
+                    if getattr(m.PreferredUnits, nm_) is not others[nm_][1]:
+                        chk.violation("C18.NameNotResolved", {**key, "entry": "set_pref(several entries)"},
+                                      {**det, "call": call, "slot": nm_, "got": safe(getattr(m.PreferredUnits, nm_))})
+                if getattr(m.PreferredUnits, slot) is not before[slot] and getattr(m.PreferredUnits, slot) != before[slot]:
+                    chk.violation("C18.UnknownNameChangedSettings", {**key, "entry": "set_pref(several entries)"}, {**det, "call": call})
         elif entry == "value_with_prefix":
             text = (" " if c["variant"][1] in ("lead", "both") else "") + prefix + s.strip() + (" " if c["variant"][1] in ("trail", "both") else "")
             o = impl.outcome(_parse_value, text, None)
@@ -258,7 +273,10 @@ def replay_names(chk, cases, tmpdir):
             esc = s.replace("\\", "\\\\").replace('"', '\\"')
             with open(path, "w", encoding="utf-8") as f:
                 if entry == "config_file_preferred":
-                    f.write(f'[pybc.preferred_units]\n{slot} = "{esc}"\n')
+                    # (an unknown name sits between two valid entries of the section)
+                    extra_before = 'velocity = "mps"\n' if not known and slot != "velocity" else ""
+                    extra_after = 'weight = "gram"\n' if not known and slot != "weight" else ""
+                    f.write(f'[pybc.preferred_units]\n{extra_before}{slot} = "{esc}"\n{extra_after}')
                 else:
                     f.write(f'[pybc.calculator]\nmax_calc_step_size = {{ value = 2.0, units = "{esc}" }}\n')
             o = impl.outcome(m.basicConfig, path, suppress_warnings=True)
@@ -267,8 +285,15 @@ def replay_names(chk, cases, tmpdir):
                 if known:
                     if got is not wantU:
                         chk.violation("C18.NameNotResolved", key, {**det, "slot": slot, "got": safe(got)})
-                elif not unchanged():
-                    chk.violation("C18.UnknownNameChangedSettings", key, {**det, "slot": slot})
+                else:
+                    vel_ok = slot == "velocity" or m.PreferredUnits.velocity is m.Unit.MPS
+                    wgt_ok = slot == "weight" or m.PreferredUnits.weight is m.Unit.Gram
+                    if not (vel_ok and wgt_ok):
+                        chk.violation("C18.NameNotResolved", {**key, "entry": "config_file_preferred(several entries)"},
+                                      {**det, "velocity": safe(m.PreferredUnits.velocity), "weight": safe(m.PreferredUnits.weight)})
+                    m.PreferredUnits.velocity, m.PreferredUnits.weight = before["velocity"], before["weight"]
+                    if not unchanged():
+                        chk.violation("C18.UnknownNameChangedSettings", key, {**det, "slot": slot})
             else:
                 g = m.get_global_max_calc_step_size() >> m.Unit.Foot
                 if known:
@@ -447,7 +472,7 @@ def run(chk: core.Check, replay=None) -> None:
     chk.require_strata(["cfg_settings_dict_reused", "cfg_SetGlobalStep", "cfg_ResetGlobals", "cfg_NewCalc", "cfg_Use", "cfg_nonpositive_global_step",
                         "cfg_use_with_global_changed", "gravity_custom", "limit_above_the_launch_point_barrel_up", "air_speed_far_above_ground_speed", "zeroing_path_settings", "limits_custom", "names_parse_unit", "names_set_pref",
                         "names_value_with_prefix", "names_value_preferred_name", "names_config_file_preferred",
-                        "names_config_file_step_units", "names_unknown"])
+                        "names_config_file_step_units", "names_unknown", "names_unknown_among_valid_entries"])
     chk.exhaustive = False
     chk.rule.append("settings: TLC-simulated histories of 7 operations over 2 calculators and all 256 constructor subsets, replayed on "
                     "real calculators; honoured: seeded shots for gravity / limits / zero accuracy / iteration cap; names: every "
